@@ -30,10 +30,10 @@ class ECell:
 
 def bar_encoding(obj):
     """Token encoding of a barline (what the tree holds): type without the number and without the invisibility mark."""
-    base = obj['eq'] + obj['type'] + obj['fermata']
+    base = obj['eq'] + obj['type'] + obj['fermata'] + obj.get('suffix', '')
     acc = {base}
     if obj['type'] == ':!:':
-        acc.add(obj['eq'] + ':|!|:' + obj['fermata'])
+        acc.add(obj['eq'] + ':|!|:' + obj['fermata'] + obj.get('suffix', ''))
     return base, acc
 
 
@@ -42,10 +42,10 @@ def bar_expected(obj):
     measure-structure workloads generate them (DESIGN 2.2)."""
     if obj.get('hidden'):
         return '.', {'.'}
-    base = obj['eq'] + obj['type'] + obj['fermata']
+    base = obj['eq'] + obj['type'] + obj['fermata'] + obj.get('suffix', '')
     acc = {base}
     if obj['type'] == ':!:':
-        acc.add(obj['eq'] + ':|!|:' + obj['fermata'])
+        acc.add(obj['eq'] + ':|!|:' + obj['fermata'] + obj.get('suffix', ''))
     return base, acc
 
 
